@@ -31,6 +31,7 @@ theorem step_inv {s : State} (h : Inv s) (st : Step) : Inv (step s st) := by
   | ioComplete sid => exact doComplete_inv h sid
   | ioFail sid => exact doFail_inv h sid
   | ioPeerClose sid => exact doPeerClose_inv h sid
+  | timerClose sid => exact doFail_inv h sid
   | ioStep => exact doIoStep_inv h
   | fence => exact doFence_inv h
 
